@@ -125,7 +125,7 @@ pub fn exact_range(src: &ArrDesc) -> Option<u64> {
             exact_range(a).map(|r| r.saturating_sub(*j))
         }
         ArrDesc::Rc(a) => exact_range(a),
-        ArrDesc::Vec(v) => v.iter().map(exact_range).fold(None, |acc, r| match (acc, r) {
+        ArrDesc::Vec(v) | ArrDesc::Slice(v) => v.iter().map(exact_range).fold(None, |acc, r| match (acc, r) {
             (None, x) => x,
             (x, None) => x,
             (Some(a), Some(b)) => Some(a.min(b)),
